@@ -21,6 +21,18 @@ def main():
                            '/repo/', scratch + '/'])
     try:
         if args[0] == '--patch':
+            # a seeded patch made against an older tree (meta.json "base": commit): the files it touches are taken from that commit first,
+            # i.e. the mutated tree is the current tree with those files as they were when the patch was written, plus the patch
+            meta = os.path.join(os.path.dirname(os.path.abspath(args[1])), 'meta.json')
+            base = os.environ.get('MUT_BASE')
+            if not base and os.path.exists(meta):
+                import json
+                base = json.load(open(meta)).get('base')
+            if base:
+                for l in open(args[1]):
+                    if l.startswith('+++ b/'):
+                        rel = l[6:].strip()
+                        open(os.path.join(scratch, rel), 'wb').write(subprocess.check_output(['git', '-C', '/repo', 'show', '%s:%s' % (base, rel)]))
             subprocess.check_call(['patch', '-p1', '-s', '-d', scratch, '-i', os.path.abspath(args[1])])
             name = os.path.basename(args[1])
             cids = args[2:]
